@@ -1,6 +1,7 @@
 from pyvc.contracts import contract
 from pyvc.shapes import *
 from specs.dwarf import cu_at, CUT, SecT
+from specs.dwarf import StructsT as DwStructsT
 
 # representation invariant of the unit cache: parallel, strictly increasing, entry i is the unit at offsets[i]
 CU_RI = ["len(self._cu_cache) == len(self._cu_offsets_map)",
@@ -19,11 +20,14 @@ CU_CACHE_SHAPES = {"self._cu_cache": ListOf(CUT), "self._cu_offsets_map": ListOf
 
 @contract("elftools/dwarf/dwarfinfo.py", "DWARFInfo._parse_CU_at_offset", props=["C13", "C10", "C04"])
 class parse_cu_at:
-    """(assumed here; C04 puts the header parse itself under contract) the unit object for the
-    header at `offset`: a function of the section bytes and the offset only"""
-    mode = 'assume'
+    """the unit object for the header at `offset`: format from the first word (7.4), header fields and the
+    offset of the root entry from the header layout (7.5.1, K2), structs of the unit's own format, address
+    size and version; versions outside 2..5 are rejected"""
+    params = dict(self=Obj('DWARFInfo', debug_info_sec=SecT, structs=DwStructsT,
+                           config=Rec('DwarfConfig', little_endian=Bool, machine_arch=Str, default_address_size=Choice(4, 8))), offset=Nat)
     returns = CUT
-    ensures = ["cu_at(result, self.debug_info_sec.stream.B, offset)"]
+    ensures = ["cu_at(result, self.debug_info_sec.stream.B, offset)", "result.header.version >= 2 and result.header.version <= 5",
+               "result.structs.little_endian == self.config.little_endian", "result.dwarfinfo is self"]
     may_raise = ["ELFParseError", "DWARFError", "OverflowError", "AssertionError"]
 
 
@@ -161,3 +165,14 @@ class cu_offset_at_addr:
                " 0, len(self.entries))",
                "result is not None or forall(lambda i: not (self.entries[i].begin_addr <= addr and"
                " addr < self.entries[i].begin_addr + self.entries[i].length), 0, len(self.entries))"]
+
+
+for _q in ("DWARFInfo._is_supported_version",):
+    @contract("elftools/dwarf/dwarfinfo.py", _q, props=["C13", "C04", "C10"])
+    class _inl2:
+        inline = True
+
+
+@contract("elftools/dwarf/compileunit.py", "CompileUnit.__init__", props=["C13", "C04", "C10"])
+class cu_init:
+    inline = True
